@@ -132,7 +132,10 @@ def _pool(fn, items):
 
     if not items:
         return []
-    with mp.get_context("fork").Pool(min(len(items), common.NCPU)) as pool:
+    import sys
+
+    ctx = mp.get_context("spawn" if ("polars" in sys.modules or "rtflite" in sys.modules) else "fork")
+    with ctx.Pool(min(len(items), common.NCPU)) as pool:
         return pool.map(fn, items, chunksize=1)
 
 
